@@ -13,6 +13,28 @@ prop = sys.argv[1]
 from render_oracles import *
 from matrix_cells import *
 cells, failing, judged = 0, [], 0
+if prop == 'C02':
+    # canonical family: every construct text (written in RFC-0166 layout), atom and wrapper sequence, in every context,
+    # with a final newline: the rebuilt text must be the input, byte for byte
+    # not in RFC layout as written (the body of `assert c;` belongs on its own line; a `let` that is a binding value
+    # starts on its own line — the implementation's own output there is finding F-32 of C18), or not one token for Nix
+    NOT_CANON = {('assert', None), ('assert_list', None), ('assert_set', None), ('let', 'bindval'), ('let_set', 'bindval'), ('let_list', 'bindval'), ('inherit_in_let', 'bindval')}
+    NOT_CANON_ATOMS = {'00', '007', '1e3', 'a or b'}
+    for cname, expr in CONSTRUCTS.items():
+        for ctx, wrap in CONTEXTS.items():
+            if ctx == 'listitem' and cname in NOT_LIST_ITEMS: continue
+            if (cname, None) in NOT_CANON or (cname, ctx) in NOT_CANON: continue
+            p = wrap(expr) + '\n'; cells += 1; judged += 1
+            try: r = parse(p).rebuild()
+            except Exception as e: failing.append([cname, '-', 'canonical', ctx, 'parse/rebuild raises %s on valid input' % type(e).__name__, p, '']); continue
+            if r != p: failing.append([cname, '-', 'canonical', ctx, 'canonical source not reproduced byte for byte', p, r])
+    for site, p, lp in iter_cells():
+        if site[0] != 'atom' or site[1] in NOT_CANON_ATOMS: continue
+        cells += 1; judged += 1
+        try: r = parse(p).rebuild()
+        except Exception as e: continue
+        if r != p: failing.append(site + ['canonical source not reproduced byte for byte', p, r])
+    print(json.dumps({'cells': cells, 'judged': judged, 'failing': failing})); sys.exit(0)
 for site, p, lp in iter_cells():
     cells += 1; cname, slotname, kname, ctx = site
     try: r = parse(p).rebuild()
